@@ -131,6 +131,27 @@ def gen_scenario(rng: random.Random, feat: dict | None = None) -> dict:
                      "args": [uniq[0], {"op": rng.choice(["and", "or"]), "args": uniq[1:]}]}
             lines.append({"lhs": e, "rhs": rhs})
         sections.append({"rec": rec, "lines": lines})
+    # drop dependency lines that refer to instances that do not exist (off-sequence offsets such as
+    # a[-P1] on a P2 sequence): cylc treats them as configuration slips (the dependent never runs)
+    def _valid_points(tn):
+        pts = set()
+        for sec_ in sections:
+            if any(l["rhs"] == tn for l in sec_["lines"]):
+                pts.update(rec_points(sec_["rec"], icp, fcp))
+        return pts
+    for sec_ in sections:
+        keep = []
+        for ln in sec_["lines"]:
+            ok = True
+            if ln["lhs"] is not None:
+                for pnt in rec_points(sec_["rec"], icp, fcp):
+                    for a in atoms(ln["lhs"]):
+                        up = icp + a["abs"] if a.get("abs") is not None else pnt + a.get("off", 0)
+                        if up >= icp and up not in _valid_points(a["task"]):
+                            ok = False
+            if ok:
+                keep.append(ln)
+        sec_["lines"] = keep
     referenced = set()
     for sec in sections:
         for ln in sec["lines"]:
@@ -189,6 +210,11 @@ def gen_scenario(rng: random.Random, feat: dict | None = None) -> dict:
                 sel = rng.sample(ids, 1)
                 scn["ops"].append({"tick": tick, "cmd": "release", "args": {"tasks": [f"{p}/{t}" for p, t in sel]}})
         scn["ops"].sort(key=lambda o: o["tick"])
+    if feat.get("warm") and fcp >= 2:
+        scn["startcp"] = rng.randint(2, fcp)
+        scn["options"] = {"startcp": str(scn["startcp"])}
+    if feat.get("sequential"):
+        scn["sequential"] = [t for t in tasks if rng.random() < 0.5] or [tasks[0]]
     if feat.get("retries"):
         scn["retries"] = {}
         scn["tries"] = {}
@@ -239,6 +265,9 @@ def render_flow(scn, extra_sched="", extra_runtime=None) -> str:
            f"    runahead limit = P{scn['runahead']}"]
     if extra_sched:
         out.append(extra_sched)
+    if scn.get("sequential"):
+        out.append("    [[special tasks]]")
+        out.append(f"        sequential = {', '.join(scn['sequential'])}")
     if scn.get("queues"):
         out.append("    [[queues]]")
         for qn, q in scn["queues"].items():
@@ -281,6 +310,7 @@ def instance_graph(scn) -> dict:
     plus children / parentless information.  Atom = {"id": (p, t), "out": o,
     "pre": bool (pre-initial: counts as satisfied), "abs": bool}."""
     icp, fcp = scn["icp"], scn["fcp"]
+    start = scn.get("startcp", icp)
     seqs = {}          # task -> set of points
     for sec in scn["sections"]:
         pts = rec_points(sec["rec"], icp, fcp)
@@ -295,9 +325,11 @@ def instance_graph(scn) -> dict:
         if "task" in e:
             if e.get("abs") is not None:
                 up = icp + e["abs"]
-                return {"id": [up, e["task"]], "out": e["out"], "pre": up < icp, "abs": True}
+                return {"id": [up, e["task"]], "out": e["out"], "pre": up < icp or (up < start <= p), "abs": True}
             up = p + e.get("off", 0)
-            return {"id": [up, e["task"]], "out": e["out"], "pre": up < icp, "abs": False}
+            # pre-initial, or (warm start) before the start point: counts as satisfied
+            return {"id": [up, e["task"]], "out": e["out"],
+                    "pre": up < icp or (e.get("off", 0) != 0 and up < start <= p), "abs": False}
         return {"op": e["op"], "args": [conc(a, p) for a in e["args"]]}
 
     for sec in scn["sections"]:
@@ -307,6 +339,13 @@ def instance_graph(scn) -> dict:
                 continue
             for p in pts:
                 inst[(p, ln["rhs"])]["prereqs"].append(conc(ln["lhs"], p))
+    # sequential tasks: implicit dependence on the previous instance having succeeded
+    for t in scn.get("sequential", []):
+        pts = sorted(seqs.get(t, ()))
+        for i, p in enumerate(pts):
+            if i > 0:
+                inst[(p, t)]["prereqs"].append(
+                    {"id": [pts[i - 1], t], "out": "succeeded", "pre": pts[i - 1] < start <= p, "abs": False})
     # children: output -> list of child ids
     for cid, d in inst.items():
         for e in d["prereqs"]:
